@@ -7,11 +7,38 @@ is the same in the files `f` and `g` — in particular when no item of `e` is re
 the map list, the only bytes in which `f` and `withMap f …` differ.  It is decidable.
 -/
 import AgVerif.Proof.DexFrame
-import AgVerif.Proof.DexLoadView
+import AgVerif.Proof.DexTables
+import AgVerif.Proof.DexFile
 import AgVerif.Proof.LoadOrder
 namespace AgVerif.DexPerm
 open AgVerif.DexFile AgVerif.LoadOrder AgVerif.DexFrame
-open AgVerif.C05 (mapEntryBytes readMapEntries_enc)
+open AgVerif.C05 (mapEntryBytes)
+
+/-! the map entry writer/reader pair (as in Proof/DexLoadView.lean, repeated here so that C07 does
+    not depend on C05's load-order-specific lemmas) -/
+
+theorem members_lt : ∀ t ∈ Gen.MapDeps.members.map (·.2), t < 65536 := by decide
+
+theorem decMapEntry_enc (e : MapEntry) (rest : Bytes) (ht : e.type ∈ Gen.MapDeps.members.map (·.2))
+    (hs : e.size < 2 ^ 32) (ho : e.offset < 2 ^ 32) :
+    decMapEntry (mapEntryBytes e ++ rest) = some (.ok e, rest) := by
+  have hany : Gen.MapDeps.members.any (·.2 == e.type) = true := by
+    rw [List.any_eq_true]
+    obtain ⟨p, hp, he⟩ := List.mem_map.mp ht
+    exact ⟨p, hp, by simp [he]⟩
+  simp only [decMapEntry, mapEntryBytes, List.append_assoc, bind, Option.bind,
+    u16_enc _ _ (members_lt _ ht), u16_enc 0 _ (by omega), u32_enc _ _ hs, u32_enc _ _ ho, hany,
+    ↓reduceIte, pure]
+
+theorem readMapEntries_enc : ∀ (es : List MapEntry) (rest : Bytes),
+    (∀ e ∈ es, e.type ∈ Gen.MapDeps.members.map (·.2) ∧ e.size < 2 ^ 32 ∧ e.offset < 2 ^ 32) →
+    readMapEntries es.length (es.flatMap mapEntryBytes ++ rest) = .ok es
+  | [], _, _ => rfl
+  | e :: es, rest, h => by
+    obtain ⟨h1, h2, h3⟩ := h e List.mem_cons_self
+    simp only [List.length_cons, readMapEntries, List.flatMap_cons, List.append_assoc,
+      decMapEntry_enc e _ h1 h2 h3,
+      readMapEntries_enc es rest (fun x hx => h x (List.mem_cons_of_mem _ hx))]
 
 instance exceptDecEq {ε α} [DecidableEq ε] [DecidableEq α] : DecidableEq (Except ε α)
   | .ok a, .ok b => if h : a = b then isTrue (h ▸ rfl) else isFalse (fun h' => h (Except.ok.inj h'))
